@@ -29,7 +29,7 @@ func init() {
 		Variant{Prop: "C17", Name: "batch-map-read-outside", File: st, Expect: "C17.d",
 			Old: "\tif h := s.pending.GetByHeight(height); !h.IsZero() {\n\t\treturn h, nil\n\t}\n\n\tctx, done := s.withReadTransaction(ctx)", New: "\tif h := s.pending.headers[height]; !h.IsZero() {\n\t\treturn h, nil\n\t}\n\n\tctx, done := s.withReadTransaction(ctx)"},
 		Variant{Prop: "C17", Name: "head-advanced-before-append", File: st, Expect: "C17.e",
-			Old: "\t\ts.ensureInit(headers)\n\t\t// add headers to the pending and ensure they are accessible\n\t\ts.pending.Append(headers...)", New: "\t\ts.ensureInit(headers)\n\t\ts.advanceHead(ctx)\n\t\t// add headers to the pending and ensure they are accessible\n\t\ts.pending.Append(headers...)"},
+			Old: "\t\t// add headers to the pending and ensure they are accessible\n\t\ts.pending.Append(headers...)", New: "\t\ts.advanceHead(ctx)\n\t\t// add headers to the pending and ensure they are accessible\n\t\ts.pending.Append(headers...)"},
 		// benign
 		Variant{Prop: "C17", Name: "benign-explicit-unlock", File: ba,
 			Old: "func (b *batch[H]) Len() int {\n\tb.lk.RLock()\n\tdefer b.lk.RUnlock()\n\treturn len(b.headers)", New: "func (b *batch[H]) Len() int {\n\tb.lk.RLock()\n\tn := len(b.headers)\n\tb.lk.RUnlock()\n\treturn n"},
